@@ -65,6 +65,15 @@ def _generate_field_validator(
             validator = None
     elif type_def.kind == "stringLiteral":
         return f"attrs.field(validator=attrs.validators.in_(['{type_def.value}']), default='{type_def.value}')"
+    elif (
+        type_def.kind == "or"
+        and len(type_def.items) == 2
+        and sorted(i.name for i in type_def.items if i.kind == "base")
+        in (["integer", "null"], ["null", "uinteger"])
+    ):
+        # `integer | null` and `uinteger | null` are range checked like `integer`.
+        number = [i for i in type_def.items if i.name != "null"][0]
+        return _generate_field_validator(number, True)
     else:
         validator = None
 
